@@ -382,6 +382,53 @@ pub fn run(ctx: &mut Ctx, replay: Option<&str>) {
     for chunk in pairs.chunks(3000) {
         run_pairs(ctx, chunk);
     }
+    // credentials with very many disclosures (limits on counts that exist in one parser only); the extracted model is
+    // quadratic in the number of disclosures, so these pairs are judged on the implementation alone
+    for (wi, n) in (if ctx.tier == Tier::Quick { vec![700usize] } else { vec![300, 700, 1400] }).into_iter().enumerate() {
+        let mut r = ctx.rng.fork(470_000 + wi as u64);
+        let claims = gen_wide_claims(&mut r, n, now());
+        let a = IssueArgs { claims: claims.clone(), strategy: Strategy::All, holder: None, decoy: false, fmt: if wi % 2 == 0 { Fmt::Compact } else { Fmt::Json }, key: crate::keys::KeyId::Hmac1, alg: Some("HS256".into()), queue: None };
+        let issued = issue(&a);
+        ctx.impl_calls += 1;
+        ctx.evaluations += 1;
+        ctx.oracle_checks += 1;
+        let case = json!({"wide_claim_set": {"members": n, "fmt": a.fmt.name(), "strategy": "all"}});
+        let s = match issued.out.ok() {
+            Some(s) => s.clone(),
+            None => {
+                ctx.violation("oracle", "issue", "a credential with many disclosures was not issued", case, issued.out.describe(), json!("Ok"));
+                continue;
+            }
+        };
+        if let Ok((own, other, _)) = transcode(&mut r, &s, a.fmt) {
+            let sel = PresentArgs::plain(json!({"list": [true, true]}).as_object().cloned().unwrap());
+            let ha = holder_session(&own, a.fmt, &[sel.clone()]);
+            let hb = holder_session(&other, a.fmt.other(), &[sel]);
+            let va = verify(&VerifyArgs { input: own.clone(), fmt: a.fmt, resolver: Resolver::always(a.key), aud: None, nonce: None });
+            let vb = verify(&VerifyArgs { input: other.clone(), fmt: a.fmt.other(), resolver: Resolver::always(a.key), aud: None, nonce: None });
+            ctx.impl_calls += 4;
+            let mut problems = vec![];
+            if ha.new.class() != hb.new.class() || ha.calls.first().map(|c| c.out.class()) != hb.calls.first().map(|c| c.out.class()) {
+                problems.push("a holder is built / presents from one serialization of the issued SD-JWT and fails on the other");
+            }
+            if va.out.class() != vb.out.class() {
+                problems.push("the verifier accepts one serialization of the issued SD-JWT and rejects the other");
+            } else if let (Outcome::Ok(x), Outcome::Ok(y)) = (&va.out, &vb.out) {
+                if x != y {
+                    problems.push("the verifier returns different claims for the two serializations");
+                }
+            }
+            if !va.out.is_ok() {
+                problems.push("an honestly issued SD-JWT with many disclosures is rejected");
+            }
+            ctx.count("case.wide-credential-both-forms");
+            if problems.is_empty() {
+                ctx.nontrivial(&case);
+            } else {
+                ctx.violation("oracle", "verify", problems[0], case, json!({"holder": [ha.new.describe(), hb.new.describe()], "verify": [va.out.class(), vb.out.class()], "problems": problems}), json!("same decision, same claims"));
+            }
+        }
+    }
     for pick in ["c04-replay", "c03-forged", "honest-presentation-with-kb"] {
         if let Some(p) = pairs.iter().find(|p| p.name.starts_with(pick)) {
             ctx.sample(json!({"pair": p.name, "a": {"fmt": p.a.fmt.name(), "input": p.a.input}, "b": {"fmt": p.b.fmt.name(), "input": p.b.input}}));
